@@ -42,6 +42,16 @@ CHECKS = {
         note="Trusted: Coq kernel; harness h_samply and its JSON read-back; tools/consts.py. Not covered: JS/ART label insertion (more frames than the hint).",
         technique="Coq proof (characterisation of the three-state iterator by induction, arithmetic by lia) + differential correspondence run with the property-text checker evaluated by vm_compute",
         design="4/C14"),
+    "C13": dict(
+        text="Coq theorem C13_run_is_spec: for every chunk size > 0, every file and EVERY sequence of read_bytes_at / read_bytes_at_until calls, each call returns exactly "
+             "what a state-free specification of the file says (exact bytes, delimited reads up to the first delimiter inside min(range, 4096), in-bounds reads succeed, "
+             "overflowing/out-of-bounds reads fail, nothing panics) - hence independence from history and chunk alignment; C13_read_exact/_until_exact/_in_bounds_succeeds spell the spec out; "
+             "C13_constants re-checks the regenerated constants. Tied to samply-symbols by running FileContentsWithChunkedCaching on generated call sequences and evaluating spec + model in Coq. "
+             "Two defects (F-C13a/b) were found, fixed by fix: commits and stay in corpus/C13.",
+        note="Trusted: Coq kernel; RangeMap overwrite semantics as modelled; harness h_symbols (byte comparison against the in-memory file). "
+             "Not proved: behaviour under concurrent readers (mutex scopes argued, not modelled), FrozenVec slice validity.",
+        technique="Coq proof (state invariant + refinement of a state-free specification, by induction over the call sequence) + differential correspondence run evaluated by vm_compute",
+        design="4/C13"),
 }
 
 NOT_YET = "check not built yet in this development (planned: see DESIGN.md section 4); no claim is made"
